@@ -8,6 +8,7 @@ use proptest::{
 use serde::{Serialize, de::DeserializeOwned};
 use serde_json::{Value, json};
 use std::{
+    sync::Mutex,
     cell::RefCell,
     collections::{BTreeMap, HashSet},
     fmt::Debug,
@@ -819,6 +820,81 @@ pub fn install_crash_guard(property: &str) {
     CRASH_ON.store(true, SeqCst);
 }
 
+// ---------------------------------------------------------------------------------------------
+// Hang watchdog: a case that does not come back (the code under test spins inside one poll, so
+// no virtual-time bound can catch it) must not leave a silent, dead check process.
+// ---------------------------------------------------------------------------------------------
+
+struct HangState {
+    property: String,
+    limit: std::time::Duration,
+    as_violation: bool,
+    running: std::collections::HashMap<std::thread::ThreadId, (Instant, String, String)>,
+}
+
+static HANG: Mutex<Option<HangState>> = Mutex::new(None);
+
+/// From now on every case is timed by a watchdog thread. A case that runs longer than
+/// `limit_secs` (wall clock; simulated cases take milliseconds) is written to a replay file and
+/// the process exits: with a VIOLATION line if the property itself promises that the call
+/// returns (`as_violation`), otherwise with exit code 2 (inconclusive).
+pub fn install_hang_watchdog(property: &str, limit_secs: u64, as_violation: bool) {
+    *HANG.lock().unwrap() = Some(HangState {
+        property: property.to_string(),
+        limit: std::time::Duration::from_secs(limit_secs),
+        as_violation,
+        running: Default::default(),
+    });
+
+    std::thread::spawn(|| {
+        loop {
+            std::thread::sleep(std::time::Duration::from_millis(500));
+
+            let g = HANG.lock().unwrap();
+            let Some(h) = g.as_ref() else { continue };
+
+            if let Some((started, kind, case)) = h.running.values().find(|(t, ..)| t.elapsed() > h.limit) {
+                let dir = format!("{VERIF_ROOT}/replays/{}", h.property);
+                let _ = std::fs::create_dir_all(&dir);
+                let path = format!("{dir}/violation-does-not-return.json");
+                let msg = format!("the case had not returned after {} s of wall clock time (cases of this check take milliseconds)", started.elapsed().as_secs());
+                let body = format!(
+                    "{{\"property\":{:?},\"kind\":{:?},\"signature\":\"{}|does-not-return\",\"message\":{:?},\"case\":{}}}\n",
+                    h.property, kind, h.property, msg, case
+                );
+                let _ = std::fs::write(&path, body);
+
+                eprintln!("[{}] {}|does-not-return: {msg}", h.property, h.property);
+
+                if h.as_violation {
+                    println!("VIOLATION property={} replay={path}", h.property);
+                    std::process::exit(1);
+                } else {
+                    println!("INCONCLUSIVE property={} case does not return, replay={path}", h.property);
+                    std::process::exit(2);
+                }
+            }
+        }
+    });
+}
+
+/// The calling thread starts evaluating `value`.
+pub fn hang_begin<T: Serialize>(kind: &str, value: &T) {
+    let mut g = HANG.lock().unwrap();
+
+    if let Some(h) = g.as_mut() {
+        h.running.insert(std::thread::current().id(), (Instant::now(), kind.to_string(), serde_json::to_string(value).unwrap_or_else(|_| "null".into())));
+    }
+}
+
+pub fn hang_end() {
+    let mut g = HANG.lock().unwrap();
+
+    if let Some(h) = g.as_mut() {
+        h.running.remove(&std::thread::current().id());
+    }
+}
+
 /// Record the case the calling thread is about to evaluate.
 pub fn crash_record<T: Serialize>(kind: &str, value: &T) {
     use std::sync::atomic::Ordering::SeqCst;
@@ -973,6 +1049,7 @@ where
         let mut info = CaseInfo::default();
 
         crash_record(kind, &value);
+        hang_begin(kind, &value);
 
         let res = match catch(|| f(&value, &mut info)) {
             Ok(r) => r,
@@ -981,6 +1058,8 @@ where
                 format!("panic escaped the property closure: {panic_msg}"),
             )),
         };
+
+        hang_end();
 
         match res {
             Ok(()) => {
